@@ -40,6 +40,11 @@ LOG = []        # enter/exit log shared by all blocks of the running scenario
 
 # ---------------------------------------------------------------- real blocks with probes
 
+class Overflow(BaseException):
+    """raised by a probe at nesting depth 4: stops a runaway recursion of a broken implementation
+    (a BaseException, so that no handler in between catches it)"""
+
+
 class _Traced:
     """mix-in: nesting depth per block, enter/exit log"""
 
@@ -48,6 +53,9 @@ class _Traced:
         self._c11_max = max(getattr(self, '_c11_max', 0), self._c11_depth)
         v = data.get('value', edzed.UNDEF)
         LOG.append(f"+{self.name}:{self._c11_depth}:{'-' if v is edzed.UNDEF else enc(v)}")
+        if self._c11_depth > 3:
+            self._c11_depth -= 1
+            raise Overflow(self.name)
 
     def _c11_exit(self, ok):
         self._c11_depth -= 1
@@ -316,7 +324,7 @@ def run_impl(scn):
                 else:
                     ret = blocks[d].event(py_etype(et), **data)
                 res, exc = 'ret ' + enc(ret), None
-            except Exception as err:    # pylint: disable=broad-except
+            except (Exception, Overflow) as err:    # pylint: disable=broad-except
                 res, exc = 'exc ' + kind_of(err), err
             record(line, {'kind': kind, 'd': d, 'follow': follow}, res, exc)
 
@@ -561,7 +569,7 @@ def alphabet(rng, circ):
 
 def scenarios(rng, tier):
     yield from seeds()
-    ncirc, nseq = (700, 5) if tier == 'quick' else (6000, 8)
+    ncirc, nseq = (2500, 5) if tier == 'quick' else (20000, 8)
     for c in range(ncirc):
         circ = rand_circuit(rng)
         alpha = alphabet(rng, circ)
